@@ -120,7 +120,7 @@ Proof.
   { unfold s. rewrite !app_length. reflexivity. }
   eexists. split; [|split; [|split]].
   - unfold parse_top. fold s.
-    rewrite (run_mono s false cx _ (parse_fuel s) _ _ H2 ltac:(discriminate)) by (unfold parse_fuel; lia).
+    rewrite (run_mono s false cx _ (parse_fuel s cx) _ _ H2 ltac:(discriminate)) by (pose proof (parse_fuel_ge s cx); lia).
     cbn [parse_content]. reflexivity.
   - reflexivity.
   - reflexivity.
@@ -146,12 +146,12 @@ Proof.
   assert (LS : length s = length (unparse_items2 l) + (length tr + (length (stray_text c) + length g))).
   { unfold s. rewrite !app_length. reflexivity. }
   unfold parse_top. fold s.
-  assert (H2 : run s true cx (parse_fuel s) (TGeneral ps0 top_opts 0)
+  assert (H2 : run s true cx (parse_fuel s cx) (TGeneral ps0 top_opts 0)
                = PErr (rewrap 0 (fail_err ps0 (fst A) (0 + length (unparse_items2 l)) (stray_tk c) (stray_arg c)
                                           (0 + length (unparse_items2 l) + length tr + length (stray_text c)) tr []
                                           (stray_what c)))
                       (0 + length (unparse_items2 l) + length tr + length (stray_text c))).
-  { apply (run_mono s true cx (S (1 + 8 * length (unparse_items2 l)))); [|discriminate|unfold parse_fuel; lia].
+  { apply (run_mono s true cx (S (1 + 8 * length (unparse_items2 l)))); [|discriminate|pose proof (parse_fuel_ge s cx); lia].
     cbn [run]. fold ps0. fold A. rewrite H1. reflexivity. }
   rewrite H2. cbn [parse_content rewrap fail_err mkerr pe_at pe_past pe_nodes]. reflexivity.
 Qed.
